@@ -108,9 +108,10 @@ def pointerText (a : Nat) : String := "0x" ++ String.ofList (hexDigits 17 a)
 /-- one entry of a schema's `usedict` / `refdict`: the item's name (dictionary key), its supplier schema (name and the
     number of the Schema object, for its address) -/
 structure RefEntry where
-  item : String
+  item : String               -- dictionary key: the new name if the item is renamed (`AS`), otherwise its own
   supplier : String
   supplierObj : Nat
+  printed : String := ""      -- what REFout prints for it: `old` or `old AS new`
   deriving Repr
 
 /-- the key REFout files an entry under -/
@@ -126,5 +127,12 @@ def refoutGroupOrder (kk : RefKey) (α : Ambient) (listBase : Nat) (entries : Li
   let walked := (ExpressHash.dictOrder (entries.map fun e => (e.item, e))).map (·.2)
   let filed := walked.zipIdx.map fun (e, i) => (refKeyOf kk α e, (e.supplier, α.addr (listBase + i)))
   (ExpressHash.dictOrder filed).map (·.2.1)
+
+/-- the complete grouping REFout emits: for every supplier (in `refoutGroupOrder`) the texts of its items in the order in
+    which step 1 met them — the DICTdo order of `refdict` (a hash order of the item keys), NOT the order of the source text -/
+def refoutGroups (kk : RefKey) (α : Ambient) (listBase : Nat) (entries : List RefEntry) : List (String × List String) :=
+  let walked := (ExpressHash.dictOrder (entries.map fun e => (e.item, e))).map (·.2)
+  let filed := walked.zipIdx.map fun (e, i) => (refKeyOf kk α e, (e.supplier, α.addr (listBase + i)))
+  (ExpressHash.dictOrder filed).map fun g => (g.2.1, (walked.filter fun e => refKeyOf kk α e == g.1).map (·.printed))
 
 end StepModel.GenDeterm
